@@ -17,6 +17,12 @@ from collections import Counter
 from . import NPROC, canon, clock, sandbox, snapshot
 
 
+def _tup(x):
+    if isinstance(x, list):
+        return tuple(_tup(y) for y in x)
+    return x
+
+
 class HarnessError(Exception):
     """Nondeterminism / replay divergence / internal error: exit code 2, never a verdict."""
 
@@ -255,6 +261,7 @@ class Result:
         self.outcomes: Counter = Counter()
         self.samples: list = []
         self.wall = 0.0
+        self.wall_cap = False
 
     def merge_counts(self, other):
         for a in ("states", "transitions", "stutters", "terminals", "cycles", "validated"):
@@ -283,7 +290,7 @@ def replay_path(world: World, path, want_key=None, want_digests=None):
 
 
 def explore(world: World, *, max_states=2_000_000, max_depth=None, procs=1, validate_stride=211,
-            check_cycles=True, cycle_clause=None, n_samples=2, progress=None, validate_terminals=200) -> Result:
+            check_cycles=True, cycle_clause=None, n_samples=2, progress=None, validate_terminals=200, max_wall=None) -> Result:
     """Level-synchronous BFS. ``cycle_clause`` = (property, clause) to report non-progress cycles."""
     t0 = time.time()
     setup_process()
@@ -291,6 +298,11 @@ def explore(world: World, *, max_states=2_000_000, max_depth=None, procs=1, vali
     st = world.initial()
     k0 = world.key(st)
     b0 = world.snap(st)
+    # events must survive the JSON round trip of replay files unchanged
+    for ev in world.enabled(st):
+        back = _tup(json.loads(json.dumps(ev)))
+        if back != ev:
+            raise HarnessError(f"event {ev!r} of world {world.describe()} is not JSON-safe (comes back as {back!r})")
     index = {k0: 0}
     parent = [(-1, None, None)]  # idx -> (parent idx, event, obs digest)
     depth = [0]
@@ -308,6 +320,10 @@ def explore(world: World, *, max_states=2_000_000, max_depth=None, procs=1, vali
         while frontier:
             if max_depth is not None and d >= max_depth:
                 res.cap_hit = True
+                break
+            if max_wall is not None and time.time() - t0 > max_wall:
+                res.cap_hit = True  # wall-clock budget of this world used up: reported as a cap, not as exhaustive
+                res.wall_cap = True
                 break
             if pool is not None and len(frontier) >= 2:
                 n = max(1, min(64, -(-len(frontier) // (procs * 4))))
